@@ -24,6 +24,20 @@ type Shaped struct {
 
 func itemShapes(c *Counter) []Shaped {
 	mk := func(n string, it ap.Item) Shaped { return Shaped{n, reflect.ValueOf(&it).Elem()} }
+	out := itemShapesBase(c, mk)
+	// an embedded value that says nothing but its type ({"type":"Place"}): the emptiness tests of the writers must count the type
+	for _, st := range StructTypes {
+		if st.Name() == "Link" {
+			continue
+		}
+		p := reflect.New(st)
+		p.Elem().FieldByName("Type").SetString(string(DefaultType[st.Name()]))
+		out = append(out, mk("obj:"+st.Name()+"-typeonly", p.Interface().(ap.Item)))
+	}
+	return out
+}
+
+func itemShapesBase(c *Counter, mk func(n string, it ap.Item) Shaped) []Shaped {
 	return []Shaped{
 		mk("iri", c.ID("i")),
 		mk("obj:Object", &ap.Object{ID: c.ID("o"), Type: ap.NoteType, Name: ap.DefaultNaturalLanguageValue("txt-n")}),
